@@ -43,6 +43,10 @@ func init() {
 			Vars: map[string]string{"c": "c"}, Params: []string{"c"}},
 		{Module: "Kv", Name: "limitByte", File: PB, Func: "bytesPrefix", Sel: "assign:limit[i]", Mode: "nat", Result: "Nat",
 			Vars: map[string]string{"c": "c"}, Params: []string{"c"}, Doc: "guarded by c < 0xff: no byte overflow"},
+		// ---- kvdb/leveldb: replayer (C23, repaired by 228cf31) -------------------------------------
+		{Module: "Kv", Name: "ldbReplayNilValue", File: "kvdb/leveldb/leveldb.go", Func: "replayer.Put", Sel: "if:1", Mode: "nat", Result: "Bool",
+			Vars: map[string]string{"value == nil": "valueNil"}, BParams: []string{"valueNil"},
+			Doc: "goleveldb hands an empty value over as nil; the replayer turns it back into an empty slice"},
 		{Module: "Kv", Name: "pebbleStarted", File: PB, Func: "iterator.Next", Sel: "if:0", Mode: "nat", Result: "Bool",
 			Vars: map[string]string{"it.isStarted": "isStarted"}, BParams: []string{"isStarted"}, Doc: "Next when true, First otherwise"},
 	}...)
